@@ -145,6 +145,7 @@ def drive (st : St) : List String → St × String
   | ["sleep", _] => (st, "ok")
   | ["batch", _] => (st, "ok")
   | "breq" :: _ => (st, "batched")
+  | "areq" :: _ => (st, "skip")   -- a request after a concurrent batch: the state then depends on the schedule
   | _ => (st, "bad-op")
 
 end OciModel.Driver.Auth
